@@ -63,6 +63,7 @@ def _scene(nm):
 def run_case(case, info):
     C = Case(case, info)
     spec, agg = _scene(case["scene"])
+    C.concrete_trace(replay, {"kind": "c04", "scene": case["scene"], "env": {}}, f"C04|getBH_level2|values|{case['scene']}|concrete")
 
     def run():
         sc = L2.Scene(spec)
